@@ -322,6 +322,8 @@ def main():
                 samples.append(x)
         for k, val in e.get("counters", {}).items():
             counters[k] = counters.get(k, 0) + val
+        cfgs.update(e.get("cfgs", []))
+        opsigs.update(e.get("opsigs", []))
     floor_fail = []
     for k, minimum in spec.get("floors", {}).get(tier, spec.get("floors", {}).get("any", {})).items():
         got = evaluations if k == "evaluations" else counters.get(k, 0)
